@@ -85,7 +85,9 @@ def run(chk, tier):
             m = vshow(v[4][names.index('state')])
             detail = m[:140]
             # the map must be collected from an iterator that yields (default_flow_id(), FlowState::new(..))
-            if not re.search(r'once\(\(call:State::default_flow_id\(\), call:FlowState::new\(', m):
+            # … or built from an array literal holding that pair (HashMap::from([(id, state)]))
+            if not re.search(r'once\(\(call:State::default_flow_id\(\), call:FlowState::new\(', m) and \
+                    not re.fullmatch(r'call:HashMap::from\(\[\(call:State::default_flow_id\(\), call:FlowState::new\([^\[\]]*\)\)\]\)', m):
                 good = False
         inst = 'ctor:' + short(path)
         if good:
